@@ -3,5 +3,6 @@ CONSTANTS
  Callers <- K2
  Mode = "idle"
  ReCheck = TRUE
+ OwnStart = TRUE
  D7Stutter = TRUE
 INVARIANT NoStranded
